@@ -595,3 +595,284 @@ Proof.
   intros a b Ha Hb E.
   rewrite <- (sanitize_left_inverse a Ha), <- (sanitize_left_inverse b Hb), E. reflexivity.
 Qed.
+
+(* ------------------------------------------------------------------ *)
+(* The spec checker's linear-time line splitter is split_lines          *)
+(* ------------------------------------------------------------------ *)
+Lemma split_lines_fast_acc_eq : forall s cur, split_lines_fast_acc cur s = split_lines_acc cur s.
+Proof.
+  induction s as [|c r IH]; intros cur; cbn [split_lines_fast_acc split_lines_acc].
+  - destruct cur; [reflexivity|]. rewrite <- rev_alt. reflexivity.
+  - destruct (c =? 10); rewrite IH; [rewrite <- rev_alt|]; reflexivity.
+Qed.
+
+Theorem split_lines_fast_eq : forall s, split_lines_fast s = split_lines s.
+Proof. intros s. apply split_lines_fast_acc_eq. Qed.
+
+(* ------------------------------------------------------------------ *)
+(* Whole output: every rune is valid UTF-8 and no control character    *)
+(* ------------------------------------------------------------------ *)
+Definition good (out : bytes) : Prop := forall fuel, all_good_runes fuel out = true.
+
+Lemma good_nil : good [].
+Proof. intros fuel. destruct fuel; reflexivity. Qed.
+
+Lemma good_ascii : forall b out, pr b \/ b = 10 -> good out -> good (b :: out).
+Proof.
+  intros b out Hb Hg fuel. destruct fuel as [|f]; [reflexivity|].
+  cbn [all_good_runes].
+  assert (E : decode_rune (b :: out) = (true, b, 1%nat)).
+  { unfold decode_rune. unfold pr in Hb. destruct (b <? 128) eqn:E1; [reflexivity|lia]. }
+  rewrite E. cbn [drop]. rewrite (Hg f).
+  unfold good_vr, in_range. unfold pr in Hb. cbn [andb]. lia.
+Qed.
+
+Lemma good_ascii_app : forall l out, Forall (fun b => pr b \/ b = 10) l -> good out -> good (l ++ out).
+Proof.
+  induction 1; intros Hg; cbn [app]; [exact Hg|].
+  apply good_ascii; [assumption|]. apply IHForall. exact Hg.
+Qed.
+
+Lemma good_pr_app : forall l out, Forall pr l -> good out -> good (l ++ out).
+Proof.
+  intros l out H. apply good_ascii_app. eapply Forall_impl; [|exact H]. intros; left; assumption.
+Qed.
+
+Lemma good_multi : forall b0 raw ru out,
+  160 <= ru ->
+  (forall t, decode_rune ((b0 :: raw) ++ t) = (true, ru, length (b0 :: raw))) ->
+  good out -> good ((b0 :: raw) ++ out).
+Proof.
+  intros b0 raw ru out Hru E Hg fuel. destruct fuel as [|f]; [reflexivity|].
+  specialize (E out).
+  pose proof (drop_app_length (b0 :: raw) out) as D.
+  cbn [app] in E, D |- *. cbn [all_good_runes].
+  rewrite E, D. rewrite (Hg f).
+  unfold good_vr, in_range. cbn [andb]. lia.
+Qed.
+
+Lemma san_rel_good_app : forall s out, san_rel s out -> forall rest, good rest -> good (out ++ rest).
+Proof.
+  induction 1; intros rest Hg.
+  - exact Hg.
+  - rewrite <- app_assoc. apply good_pr_app; [apply esc_x_pr; assumption|]. apply IHsan_rel; exact Hg.
+  - rewrite <- app_assoc. apply good_pr_app; [apply esc_u_pr; lia|]. apply IHsan_rel; exact Hg.
+  - cbn [app]. apply good_ascii; [left; unfold pr; lia|]. apply good_ascii; [left; unfold pr; lia|].
+    apply IHsan_rel; exact Hg.
+  - cbn [app]. apply good_ascii; [left; assumption|]. apply IHsan_rel; exact Hg.
+  - rewrite <- app_assoc. eapply good_multi; [eassumption|eassumption|]. apply IHsan_rel; exact Hg.
+Qed.
+
+(* a piece of a line: whatever good output follows it, the whole is good *)
+Definition gpiece (l : bytes) : Prop := forall rest, good rest -> good (l ++ rest).
+
+Lemma gpiece_app : forall a b, gpiece a -> gpiece b -> gpiece (a ++ b).
+Proof. intros a b Ha Hb rest Hg. rewrite <- app_assoc. apply Ha. apply Hb. exact Hg. Qed.
+
+Lemma gpiece_pr : forall l, Forall pr l -> gpiece l.
+Proof. intros l H rest Hg. apply good_pr_app; assumption. Qed.
+
+Lemma gpiece_sanitize : forall s, bytes_ok s = true -> gpiece (sanitize s).
+Proof. intros s Hs rest Hg. apply (san_rel_good_app s); [apply sanitize_rel; exact Hs|exact Hg]. Qed.
+
+Lemma gpiece_spaces : forall n, gpiece (spaces n).
+Proof. intros n. apply gpiece_pr. apply Forall_spaces. unfold pr; lia. Qed.
+
+(* a property of every line of the report, from the two shapes a line has *)
+Lemma lines_each : forall (P : bytes -> Prop) (L : bytes -> Prop) san,
+  (forall n s, P s -> L (spaces n ++ san s)) ->
+  (forall n a b, P a -> P b -> L (spaces n ++ [32; 32] ++ san a ++ [58; 32] ++ san b)) ->
+  forall i n, info_all P i -> Forall L (lines_of san i n).
+Proof.
+  intros P L san Hd Hnv.
+  induction i as [d a c IH] using info_ind2. intros n Hi.
+  apply info_all_unfold in Hi. destruct Hi as [Hdd [Ha Hc]].
+  cbn [lines_of]. constructor; [apply Hd; exact Hdd|].
+  apply Forall_app. split.
+  - apply Forall_forall. intros l Hl. apply in_map_iff in Hl.
+    destruct Hl as [nv [E Hin]]. subst l.
+    rewrite Forall_forall in Ha. destruct (Ha nv Hin) as [H1 H2]. apply Hnv; assumption.
+  - apply Forall_forall. intros l Hl. apply in_flat_map in Hl.
+    destruct Hl as [ch [Hch Hl]].
+    rewrite Forall_forall in IH, Hc.
+    specialize (IH ch Hch (n + 2)%nat (Hc ch Hch)).
+    rewrite Forall_forall in IH. apply IH. exact Hl.
+Qed.
+
+Lemma lines_gpiece : forall i n, info_ok i -> Forall gpiece (lines_of sanitize i n).
+Proof.
+  intros i n Hi. apply (lines_each (fun s => bytes_ok s = true)); [| |exact Hi].
+  - intros k s Hs. apply gpiece_app; [apply gpiece_spaces|apply gpiece_sanitize; exact Hs].
+  - intros k a b Ha Hb.
+    apply gpiece_app; [apply gpiece_spaces|].
+    apply gpiece_app; [apply gpiece_pr; repeat constructor; unfold pr; lia|].
+    apply gpiece_app; [apply gpiece_sanitize; exact Ha|].
+    apply gpiece_app; [apply gpiece_pr; repeat constructor; unfold pr; lia|].
+    apply gpiece_sanitize; exact Hb.
+Qed.
+
+Lemma good_lines : forall ls, Forall gpiece ls -> forall rest, good rest ->
+  good (flat_map (fun l => l ++ [10]) ls ++ rest).
+Proof.
+  induction 1 as [|l ls Hl _ IH]; intros rest Hg; cbn [flat_map app]; [exact Hg|].
+  rewrite <- !app_assoc. apply Hl. cbn [app]. apply good_ascii; [right; reflexivity|].
+  apply IH. exact Hg.
+Qed.
+
+Theorem report_good : forall i n, info_ok i -> forall rest, good rest -> good (print_info i n ++ rest).
+Proof.
+  intros i n Hi rest Hg. unfold print_info. rewrite print_is_lines.
+  apply good_lines; [apply lines_gpiece; exact Hi|exact Hg].
+Qed.
+
+Theorem report_all_good_runes : forall i n, info_ok i ->
+  all_good_runes (length (print_info i n)) (print_info i n) = true.
+Proof.
+  intros i n Hi. pose proof (report_good i n Hi [] good_nil) as H.
+  rewrite app_nil_r in H. apply H.
+Qed.
+
+(* what the checker's two scans report follows from it *)
+Lemma all_good_no_bad : forall fuel s, all_good_runes fuel s = true ->
+  has_bad_rune fuel s = false /\ stray_c1 fuel s = false.
+Proof.
+  induction fuel as [|f IH]; intros s H; [split; reflexivity|].
+  destruct s as [|b s']; [split; reflexivity|].
+  cbn [all_good_runes has_bad_rune stray_c1] in *.
+  destruct (decode_rune (b :: s')) as [[v r] sz].
+  apply andb_true_iff in H. destruct H as [Hv Hr].
+  destruct (IH _ Hr) as [H1 H2]. rewrite H1, H2.
+  unfold good_vr in Hv. apply andb_true_iff in Hv. destruct Hv as [Hv Hrange]. subst v.
+  unfold bad_vr, in_range in *. cbn [negb andb orb]. split; [|reflexivity]. lia.
+Qed.
+
+(* ------------------------------------------------------------------ *)
+(* Number of lines and depth of each line                              *)
+(* ------------------------------------------------------------------ *)
+Lemma size_is_count : forall i, size_of i = count_lines i.
+Proof.
+  induction i as [d a c IH] using info_ind2.
+  cbn [size_of count_lines].
+  assert (E : list_sum (map size_of c) =
+              fold_right (fun ch n => (count_lines ch + n)%nat) 0%nat c).
+  { induction IH as [|ch c' Hch _ IHc]; cbn [map list_sum fold_right]; [reflexivity|].
+    rewrite Hch. f_equal. exact IHc. }
+  rewrite E. reflexivity.
+Qed.
+
+Lemma map_flat_map : forall {A B C} (f : B -> C) (g : A -> list B) l,
+  map f (flat_map g l) = flat_map (fun x => map f (g x)) l.
+Proof. induction l; cbn [flat_map map]; [reflexivity|]. rewrite map_app, IHl. reflexivity. Qed.
+
+Lemma indents_are_depths : forall i d,
+  indents_of i (2 * d) = map (fun k => (2 * k)%nat) (depths_of i d).
+Proof.
+  induction i as [ds a c IH] using info_ind2. intros d.
+  cbn [indents_of depths_of map]. f_equal.
+  rewrite map_app, map_map, map_flat_map. f_equal.
+  - apply map_ext. intros _. lia.
+  - apply flat_map_ext_Forall. eapply Forall_impl; [|exact IH].
+    intros ch H. cbv beta in *. rewrite <- H. f_equal. lia.
+Qed.
+
+Theorem report_whole_output : forall i, info_ok i ->
+  all_good_runes (length (print_info i 0)) (print_info i 0) = true /\
+  split_lines (print_info i 0) = lines_of sanitize i 0 /\
+  Forall (fun l => ~ In 10 l) (lines_of sanitize i 0) /\
+  length (lines_of sanitize i 0) = size_of i /\
+  lines_indented (map (fun d => (2 * d)%nat) (depths_of i 0)) (lines_of sanitize i 0) = true.
+Proof.
+  intros i Hi. split; [apply report_all_good_runes; exact Hi|].
+  split; [apply report_lines; exact Hi|].
+  split; [apply (lines_no_lf (fun s => bytes_ok s = true)); [exact sanitize_no_lf|exact Hi]|].
+  split; [rewrite size_is_count; apply lines_count|].
+  rewrite <- (indents_are_depths i 0). apply lines_are_indented.
+Qed.
+
+(* ------------------------------------------------------------------ *)
+(* Several files in one run (directory scan, several arguments)        *)
+(* ------------------------------------------------------------------ *)
+(* the lines of one file's report: its path and ": " in front of the first line *)
+Definition file_report_lines (p : bytes) (i : info) : list bytes :=
+  match lines_of sanitize i 0 with
+  | l0 :: r => (p ++ [58; 32] ++ l0) :: r
+  | [] => []
+  end.
+
+Lemma report_is_lines : forall p i,
+  report p i = flat_map (fun l => l ++ [10]) (file_report_lines p i).
+Proof.
+  intros p [d a c]. unfold report, file_report_lines, print_info. rewrite print_is_lines.
+  cbn [lines_of flat_map]. rewrite <- !app_assoc. reflexivity.
+Qed.
+
+Lemma report_lines_length : forall p i, length (file_report_lines p i) = size_of i.
+Proof.
+  intros p i. rewrite size_is_count, <- (lines_count sanitize i 0).
+  unfold file_report_lines. destruct (lines_of sanitize i 0); reflexivity.
+Qed.
+
+Lemma report_all_is_lines : forall items,
+  report_all items =
+  flat_map (fun l => l ++ [10]) (flat_map (fun pi => file_report_lines (fst pi) (snd pi)) items).
+Proof.
+  intros items. unfold report_all. rewrite flat_map_flat_map.
+  apply flat_map_ext_Forall. apply Forall_forall. intros pi _. apply report_is_lines.
+Qed.
+
+(* paths come from the command line and the directory listing, not from the inspected
+   content: printable ASCII here *)
+Definition scan_ok (items : list (bytes * info)) : Prop :=
+  Forall (fun pi => Forall pr (fst pi) /\ info_ok (snd pi)) items.
+
+Lemma pr_not_lf : forall l, Forall pr l -> ~ In 10 l.
+Proof.
+  intros l H Hin. rewrite Forall_forall in H. specialize (H 10 Hin). unfold pr in H. lia.
+Qed.
+
+Lemma report_lines_no_lf : forall p i, Forall pr p -> info_ok i ->
+  Forall (fun l => ~ In 10 l) (file_report_lines p i).
+Proof.
+  intros p i Hp Hi.
+  pose proof (lines_no_lf (fun s => bytes_ok s = true) sanitize sanitize_no_lf i 0%nat Hi) as H.
+  unfold file_report_lines. destruct (lines_of sanitize i 0) as [|l0 r]; [constructor|].
+  inversion H; subst. constructor; [|assumption].
+  intros Hin. apply in_app_or in Hin. destruct Hin as [Hin|Hin]; [exact (pr_not_lf p Hp Hin)|].
+  cbn [app] in Hin. destruct Hin as [E|[E|Hin]]; try discriminate. contradiction.
+Qed.
+
+Theorem scan_lines : forall items, scan_ok items ->
+  split_lines (report_all items) = flat_map (fun pi => file_report_lines (fst pi) (snd pi)) items.
+Proof.
+  intros items Hok. rewrite report_all_is_lines. apply split_lines_flat.
+  induction Hok as [|pi items [Hp Hi] _ IH]; cbn [flat_map]; [constructor|].
+  apply Forall_app. split; [apply report_lines_no_lf; assumption|exact IH].
+Qed.
+
+Theorem scan_line_count : forall items, scan_ok items ->
+  length (split_lines (report_all items)) = list_sum (map (fun pi => size_of (snd pi)) items).
+Proof.
+  intros items Hok. rewrite scan_lines by exact Hok. clear Hok.
+  induction items as [|pi items IH]; cbn [flat_map map list_sum]; [reflexivity|].
+  rewrite app_length, report_lines_length, IH. reflexivity.
+Qed.
+
+Lemma report_lines_gpiece : forall p i, Forall pr p -> info_ok i -> Forall gpiece (file_report_lines p i).
+Proof.
+  intros p i Hp Hi. pose proof (lines_gpiece i 0%nat Hi) as H.
+  unfold file_report_lines. destruct (lines_of sanitize i 0) as [|l0 r]; [constructor|].
+  inversion H; subst. constructor; [|assumption].
+  apply gpiece_app; [apply gpiece_pr; exact Hp|].
+  apply gpiece_app; [apply gpiece_pr; repeat constructor; unfold pr; lia|assumption].
+Qed.
+
+Theorem scan_all_good_runes : forall items, scan_ok items ->
+  all_good_runes (length (report_all items)) (report_all items) = true.
+Proof.
+  intros items Hok.
+  assert (G : good (report_all items ++ [])).
+  { rewrite report_all_is_lines. apply good_lines; [|exact good_nil].
+    induction Hok as [|pi items [Hp Hi] _ IH]; cbn [flat_map]; [constructor|].
+    apply Forall_app. split; [apply report_lines_gpiece; assumption|exact IH]. }
+  rewrite app_nil_r in G. apply G.
+Qed.
